@@ -136,6 +136,9 @@ Definition pred_c01 (g : ghost) (w : world) (a : action) (O : oracle) (w' : worl
 Definition sms_sent_to (g : ghost) (number code : bytes) : bool :=
   existsb (fun s => beqb (sm_to s) number && beqb (sm_text s) code) (g_smss g).
 
+Definition spent (g : ghost) (U x : bytes) : bool :=
+  existsb (fun p => beqb (fst p) U && beqb (snd p) x) (g_used g).
+
 Definition pred_c02 (g : ghost) (w : world) (a : action) (O : oracle) (w' : world) (i : iobs) : list Z :=
   match a with
   | AReq r =>
@@ -156,11 +159,11 @@ Definition pred_c02 (g : ghost) (w : world) (a : action) (O : oracle) (w' : worl
               | RTotpValidate =>
                   if (if bempty (aget f_recovery_code vals)
                       then totp_accepts O (u_totp u) (aget f_code vals)
-                      else rc_valid u (aget f_recovery_code vals)) then [] else [1021]
+                      else rc_valid u (aget f_recovery_code vals) && negb (spent g U (aget f_recovery_code vals))) then [] else [1021]
               | RSmsValidate =>
                   if (if bempty (aget f_recovery_code vals)
                       then negb (bempty (aget f_code vals)) && sms_sent_to g (u_sms u) (aget f_code vals)
-                      else rc_valid u (aget f_recovery_code vals)) then [] else [1022]
+                      else rc_valid u (aget f_recovery_code vals) && negb (spent g U (aget f_recovery_code vals))) then [] else [1022]
               | _ => []
               end
           end
